@@ -3,10 +3,11 @@
 
    All theorems quantify over every option list: any option types, any data lengths (bytes are N, so
    0..253 is included), duplicates, any order; and over every configuration and previous peer state.
-   Variant [repaired] is what /repo HEAD (27a2839) implements for pkg/ppp, internal/pppoe and internal/l2tp,
-   except the one finding still open: installInMemoryState restores IPCP for any non-nil checkpointed address
-   (flag f_rguard / [def_rguard]).  [defective], [lns_found], [def_restore] are the behaviours before the fixes
-   54fb851 / 95b0af2 / bc32486 / ce9ad2f / 8205ad2 and only occur in historical _refuted witnesses.  The IPCP,
+   Variant [repaired] is what /repo HEAD (23daa44) implements for pkg/ppp, internal/pppoe and internal/l2tp,
+   no finding is open.  [defective], [lns_found], [def_restore], [def_rguard] are the behaviours before the fixes
+   54fb851 / 95b0af2 / bc32486 / ce9ad2f / 8205ad2 / 7efc399 and only occur in historical _refuted witnesses.
+   Since e9950ea a PPPoE session whose LCP leaves Opened after startNCP is torn down (owner [Ended]): on PPPoE a
+   re-authentication of a started session no longer exists; it still does on the LNS owner.  The IPCP,
    IPv6CP, magic-number, wire-format and reply theorems do not depend on the variant at all. *)
 From OV Require Import Common.Base C06.Model C06.Proofs.
 
@@ -254,8 +255,9 @@ Print Assumptions C06_ipv6cp_wire_bad.
 (* Event alphabet of a session history (sev): the subscriber's Configure-Request (any identifier, any bytes),
    its Configure-Ack / Nak / Reject for our own request carrying our last identifier (verbatim or with
    arbitrary bytes) or a stale identifier (dropped), its Terminate-Request, the restart time-out in
-   Stopping, an LCP renegotiation (EvDown: onLCPDown, PPPoE sends Down to the NCPs) and a re-authentication
-   (EvDown, then new AAA answer, registry answers as oracle, startNCP again — the production path).
+   Stopping, an LCP renegotiation (EvDown: onLCPDown; PPPoE sends Down to the NCPs and ends the session,
+   e9950ea) and a re-authentication (PPPoE: the same as EvDown; LNS: new AAA answer, registry answers as oracle,
+   startNCP again on the same session).
    Not in the alphabet: Code-Reject, Terminate-Ack, the other time-outs, Down/Close (automaton: C05).
 
    Repaired behaviour, both owners (PPPoE, LNS), every AAA answer (none, usable, 0.0.0.0, IPv6 literal, ...),
@@ -285,16 +287,17 @@ Theorem C06_adopted_is_assigned_no_conflict :
 Proof. exact adopted_is_assigned_no_conflict. Qed.
 Print Assumptions C06_adopted_is_assigned_no_conflict.
 
-(* Re-authentication as production runs it (onLCPDown sends Down to the NCPs first): when the new address is
-   held by another session the session address is cleared, IPCP stays in Starting with the old assignment,
-   not open, and silent until the next startNCP. *)
-Example C06_reauth_conflict_example :
-  let s := sess_run repaired (sess_start repaired PPPoE (Some (v4prefix ++ [10;0;0;5])%N) (mkorc None true))
-             [EvReq 1 [3;6;10;0;0;5]%N; EvAck; EvReauth (Some (v4prefix ++ [10;0;0;9])%N) (mkorc None false);
-              EvReq 2 [3;6;6;6;6;6]%N] in
-  s_open s = false /\ s_fsm s = 1%N /\ s_addr s = None /\ ic_assigned (s_cfg s) = Some [10;0;0;5]%N.
+(* Since e9950ea: a subscriber that renegotiates LCP on a started PPPoE session ends the session — IPCP goes
+   Down, nothing is open, and whatever it sends afterwards (here a proposal of 6.6.6.6) is not answered. *)
+Example C06_lcp_renegotiation_ends_session :
+  let s1 := sess_run repaired (sess_start repaired PPPoE (Some (v4prefix ++ [10;0;0;5])%N) (mkorc None true))
+              [EvReq 1 [3;6;10;0;0;5]%N; EvAck] in
+  let s2 := sess_run repaired s1 [EvDown] in
+  s_open s1 = true /\ s_owner s2 = Ended /\ s_open s2 = false /\ s_fsm s2 = 1%N /\
+  sess_step repaired s2 (EvReq 2 [3;6;6;6;6;6]%N) = (s2, []) /\
+  sess_step repaired s2 (EvReauth (Some (v4prefix ++ [10;0;0;9])%N) (mkorc None true)) = (s2, []).
 Proof. vm_compute. repeat split. Qed.
-Print Assumptions C06_reauth_conflict_example.
+Print Assumptions C06_lcp_renegotiation_ends_session.
 
 (* The property on the TRACE.  For every start (fresh session of either owner with any AAA answer and
    registry outcome, or a session restored from a checkpoint with any address), every history and every next
@@ -341,7 +344,7 @@ Theorem C06_idle_silent :
   s_fsm s = 0%N /\ s_addr s = None /\ s_open s = false ->
   (s_fsm (fst (sess_step fl s e)) = 0%N /\ s_addr (fst (sess_step fl s e)) = None /\
    s_open (fst (sess_step fl s e)) = false) /\ snd (sess_step fl s e) = [].
-Proof. exact sess_step_idle. Qed.
+Proof. exact sess_step_idleE. Qed.
 Print Assumptions C06_idle_silent.
 
 (* In every variant no packet of the subscriber changes the assigned address: Ack/Nak contents only
@@ -388,7 +391,7 @@ Print Assumptions C06_adopted_is_assigned_refuted.
 Theorem C06_adopted_stale_refuted :
   exists aaa es,
   let fl := mkflags false true false true false false false in
-  let s := sess_run fl (sess_start fl PPPoE aaa (mkorc None true)) es in
+  let s := sess_run fl (sess_start fl LNS aaa (mkorc None true)) es in
   s_open s = true /\ s_addr s = Some [10;0;0;5]%N /\ ic_assigned (s_cfg s) = Some [10;0;0;9]%N.
 Proof.
   exists (Some (v4prefix ++ [10;0;0;5])%N),
@@ -398,14 +401,14 @@ Proof.
 Qed.
 Print Assumptions C06_adopted_stale_refuted.
 
-(* Historical, fixed in bc32486 (2): an unusable AAA address (0.0.0.0, IPv6 literal) was kept by
-   extractIPFromAttributes; on a re-authentication it replaces the valid address A of the session, startNCP
-   then finds nothing usable and IPv4 stays down although A is still assigned in the IPCP object. *)
+(* Historical, fixed in bc32486 / ce9ad2f (2): an unusable AAA address (0.0.0.0, IPv6 literal) was kept by
+   extractIPFromAttributes; on a re-authentication (owner that keeps the session) it wipes the address of a
+   session whose IPCP is open with A assigned. *)
 Theorem C06_aaa_unusable_refuted :
   exists aaa es,
   let fl := mkflags false false true false false false false in
-  let s := sess_run fl (sess_start fl PPPoE aaa (mkorc None true)) es in
-  s_open s = false /\ s_addr s = None /\ ic_assigned (s_cfg s) = Some [10;0;0;5]%N.
+  let s := sess_run fl (sess_start fl LNS aaa (mkorc None true)) es in
+  s_open s = true /\ s_addr s = None /\ ic_assigned (s_cfg s) = Some [10;0;0;5]%N.
 Proof.
   exists (Some (v4prefix ++ [10;0;0;5])%N),
          [EvReq 1 [3;6;10;0;0;5]%N; EvAck; EvReauth (Some (v4prefix ++ [0;0;0;0])%N) (mkorc None true)].
@@ -455,9 +458,9 @@ Theorem C06_restored_adopts_only_assigned_refuted :
 Proof. exists [10;0;0;5]%N, [EvReq 1 [3;6;6;6;6;6]%N; EvAck]. vm_compute. repeat split. Qed.
 Print Assumptions C06_restored_adopts_only_assigned_refuted.
 
-(* OPEN finding (known: restore-unusable-address-restores-ipcp) at /repo 27a2839: the guard in
-   installInMemoryState is "IPv4Address != nil"; a checkpoint holding 0.0.0.0 (or a 16-byte non-IPv4 value)
-   restores IPCP to Opened with nothing usable assigned, and the renegotiating subscriber gets 6.6.6.6. *)
+(* Historical, fixed in 7efc399: the guard in
+   installInMemoryState was "IPv4Address != nil"; a checkpoint holding 0.0.0.0 (or a 16-byte non-IPv4 value)
+   restored IPCP to Opened with nothing usable assigned, and the renegotiating subscriber got 6.6.6.6. *)
 Theorem C06_restore_guard_refuted :
   exists addr es,
   let s := sess_run def_rguard (sess_restore def_rguard addr None None) es in
@@ -695,7 +698,7 @@ Proof. vm_compute. repeat split. Qed.
 Print Assumptions C06_ipcp_nonvacuous.
 
 Example C06_session_nonvacuous :
-  let s := sess_run repaired (sess_start repaired PPPoE (Some (v4prefix ++ [10;0;0;5])%N) (mkorc None true))
+  let s := sess_run repaired (sess_start repaired LNS (Some (v4prefix ++ [10;0;0;5])%N) (mkorc None true))
              [EvReq 1 [3;6;0;0;0;0]; EvReq 2 []; EvAck; EvNak [3;6;6;6;6;6;129;6;1;1;1;1]; EvRej [129;6;1;1;1;1];
               EvReq 3 [3;6;10;0;0;5]; EvAck; EvTermReq 9; EvStoppingTimeout; EvStale;
               EvReauth (Some (v4prefix ++ [10;0;0;9])) (mkorc None true); EvReq 4 [3;6;10;0;0;5];
